@@ -147,11 +147,11 @@ PROPS = {
         'runtime behaviour (memory model, slice aliasing) is outside any Gallina model',
         ['Go race detector'], level='other', custom=True),
     'C15': P(
-        ['C15_missing_function_fails', 'C15_postgres_render_is_the_fold', 'C15_postgres_table_is_the_generated_one', 'C15_fuzzy_boost_unsupported', 'C15_to_postgres_rejects_fuzzy_boost'],
+        ['C15_missing_function_fails', 'C15_traced_fold_is_render', 'C15_calls_are_the_nodes_in_postorder', 'C15_override_is_local', 'C15_postgres_render_is_the_fold', 'C15_postgres_table_is_the_generated_one', 'C15_fuzzy_boost_unsupported', 'C15_to_postgres_rejects_fuzzy_boost'],
         [('corpus', 0), ('custom', 5000), ('rand', 3000), ('nearmiss', 0)],
         [('corpus', 0), ('custom', 80000), ('rand', 30000), ('nearmiss', 0)],
         ['parse'] + CUSTOM + ['ToPostgres', 'ToParameterizedPostgres'],
-        'partial: missing function anywhere => Render fails, for every table of functions; fold order / one call per node / override locality / fuzzy-boost rejection decided by C15_check with tracing functions.',
+        'full on the model: for every table of functions Render is the traced fold (calls = nodes in post-order, each once, children before parent, left before right), a missing function anywhere makes it fail, an override is invisible where its operator does not occur; the postgres Render is that fold with the generated table, which has no function for FUZZY/BOOST, so both SQL entry points fail on every tree containing one. The Go Render is tied to render_tr by tracing functions (output and call log compared per case) and by the driver-isolation scenario.',
         'random trees x function tables (all tracing, one operator removed, one overridden, both); non-trivial = tree rendered or correctly refused',
         '', []),
     'C16': P(
